@@ -1237,6 +1237,17 @@ impl Driver {
     }
 }
 
+impl Drop for Driver {
+    fn drop(&mut self) {
+        // The implementation may be in a state (after a reported violation, or under a seeded defect)
+        // in which its own destructors panic; that must not take the worker process down.
+        let slots = std::mem::take(&mut self.slots);
+        let cache = self.cache.take();
+        let _ = catch_unwind(AssertUnwindSafe(move || drop(slots)));
+        let _ = catch_unwind(AssertUnwindSafe(move || drop(cache)));
+    }
+}
+
 /// Keep the compiler from warning about unused helper types in some configurations.
 #[allow(dead_code)]
 fn _unused(_: Weak<()>, _: BTreeMap<u8, u8>) {}
